@@ -16,6 +16,10 @@ type Cas struct {
 	// Cache for exists queries since we assume that during the runtime of a build
 	// the cache backend cannot lose a digest (grog does not delete during a build)
 	keyExistsCache sync.Map
+	// Digests known to be present in every store the backend writes to (see Write).
+	// This is stronger than keyExistsCache: a remote wrapper answers Exists as soon as
+	// ONE of its stores has the digest.
+	keyStoredCache sync.Map
 }
 
 func NewCas(
@@ -32,7 +36,7 @@ func (c *Cas) GetBackend() backends.CacheBackend {
 
 // Write writes a digest for a given reader
 func (c *Cas) Write(ctx context.Context, digest string, reader io.Reader) error {
-	if exists, err := c.Exists(ctx, digest); exists && err == nil {
+	if c.isStored(ctx, digest) {
 		// If the digest already exists, we don't need to write it again
 		return nil
 	}
@@ -41,8 +45,34 @@ func (c *Cas) Write(ctx context.Context, digest string, reader io.Reader) error 
 	if err == nil {
 		// Mark the digest as existing in case later targets create the same digest
 		c.keyExistsCache.Store(digest, true)
+		c.keyStoredCache.Store(digest, true)
 	}
 	return err
+}
+
+// isStored reports whether a write of the digest can be skipped: the digest must be in
+// every store the backend writes to. A digest that is only in the local cache (built
+// before the remote cache was enabled, or left by a failed upload) must be written again,
+// otherwise the target result that references it is uploaded without it.
+// Any doubt (missing somewhere, lookup error) means "write": Set is idempotent for a digest.
+func (c *Cas) isStored(ctx context.Context, digest string) bool {
+	if _, ok := c.keyStoredCache.Load(digest); ok {
+		return true
+	}
+
+	var exists bool
+	var err error
+	if checker, ok := c.backend.(backends.FullExistenceChecker); ok {
+		exists, err = checker.ExistsEverywhere(ctx, "cas", digest)
+	} else {
+		exists, err = c.Exists(ctx, digest)
+	}
+	if err != nil || !exists {
+		return false
+	}
+
+	c.keyStoredCache.Store(digest, true)
+	return true
 }
 
 // WriteBytes writes a digest for a given reader
